@@ -352,7 +352,11 @@ func (sc *C12Scenario) Execute(t *testing.T) *core.Outcome {
 		subID := fmt.Sprintf("sub-%d", si)
 		feat := func(ev int, extra ...string) string {
 			var f []string
-			f = append(f, extra...)
+			for _, e := range extra {
+				if e != "" {
+					f = append(f, e)
+				}
+			}
 			sort.Strings(f)
 			return strings.Join(f, "+")
 		}
@@ -448,7 +452,11 @@ func (sc *C12Scenario) Execute(t *testing.T) *core.Outcome {
 				continue
 			}
 			if p < prev {
-				out.VS("cursor-moved-backwards", "cursor-regress/"+feat(0), "[%s] saved offset of %s moved backwards from log position %d to %d (%q) in incarnation %d (fault %+v)", sc.Store, subID, prev, p, s.Off, s.Inc, sc.Fault)
+				extra := ""
+				if sc.Fault != nil && sc.Fault.Op == "append" && sc.Fault.Lost && faultFired {
+					extra = "append-acknowledgement-lost"
+				}
+				out.VS("cursor-moved-backwards", "cursor-regress/"+feat(0, extra), "[%s] saved offset of %s moved backwards from log position %d to %d (%q) in incarnation %d (fault %+v)", sc.Store, subID, prev, p, s.Off, s.Inc, sc.Fault)
 			}
 			prev = p
 		}
